@@ -446,10 +446,17 @@ int prop_encode(Run& run) {
         } else if (style == 1) {
             p2.lattice_bias = true; // first used slot != 0
         }
+        if (rng.chance(1, thorough ? 25 : 50)) { // many classes, methods, slots and definitions
+            p2.big = true;
+            p2.min_classes = 66;
+            p2.max_classes = MAXC - 4;
+            p2.max_methods = 44;
+            run.count("big-registries");
+        }
         gen_graph(rng, p2, r);
         Oracle o(r);
         gen_methods(rng, p2, r, o);
-        if (style == 0 && rng.chance(1, 3)) {
+        if (style == 0 && rng.chance(1, 3) && !p2.big) {
             r.methods.clear(); // no method at all: every v-table is empty
             r.method_order.clear();
         }
